@@ -154,6 +154,7 @@ def install(repo=None):
     import naunet.chemistrydata as chemistrydata
     import naunet.configuration as configuration
     import naunet.network as network
+    import naunet.patches as patches
     import naunet.species as species
     import naunet.templateloader as templateloader
     from naunet.reactions.kromereaction import KROMEReaction
@@ -165,6 +166,7 @@ def install(repo=None):
     ns.chemistrydata = chemistrydata
     ns.configuration = configuration
     ns.network = network
+    ns.patches = patches
     ns.species = species
     ns.templateloader = templateloader
     ns.Network = network.Network
